@@ -4,6 +4,8 @@
 (* posed, the policy decides D.  The record is accepted iff D is admissible *)
 (* and every invariant of Decisions holds in the decided state.             *)
 (* Certificates (large munkres instances) are checked with CertOk.          *)
+(* Records may carry large integers: the real code saw R times a power of   *)
+(* two (near ties at ordinary magnitudes); TLC decides on the integers.     *)
 EXTENDS Decisions, Json, IOUtils
 
 Recs  == JsonDeserialize(IOEnv.RECORDS_FILE)
@@ -42,6 +44,14 @@ RelabelExplained ==
         /\ PermBack(SetOf(r2, Recs[i].D2), Recs[i].pi, Recs[i].sg) \in Admissible(inst)
         /\ (Cardinality(Admissible(inst)) = 1 =>
               PermBack(SetOf(r2, Recs[i].D2), Recs[i].pi, Recs[i].sg) = SetOf(inst, Recs[i].D))
+
+\* the same record in other units: the driver replays every munkres / greedy record with the rewards
+\* multiplied by powers of two (exact in binary) and logs every decision that differs from D (field Ds).
+\* Admissible is invariant under positive scaling (Decisions!ScaleInvariant), so each of them must be
+\* admissible for the unscaled instance.
+ScaleExplained ==
+  (pc = "posed" /\ "Ds" \in DOMAIN Recs[i]) =>
+     LET A == Admissible(inst) IN \A k \in DOMAIN Recs[i].Ds : SetOf(inst, Recs[i].Ds[k]) \in A
 
 CertsOk == \A c \in DOMAIN Certs : CertOk(Certs[c]) \/ PrintT(<<"BADCERT", c>>)
 ASSUME CertsOk
